@@ -205,8 +205,8 @@ Proof.
   assert (Hsame : forall b p a, sinv max (mkS (s_buf st) (s_loc st) b p a)).
   { intros. destruct Hinv. split; cbn; auto. }
   cbn [ser_go]. destruct m as [|tl tll].
-  - destruct (classify c); try (apply IH; auto); try exact Hdone.
-  - destruct (classify c); try exact Hdone; try (apply IH; auto; fail).
+  - destruct (classify_fx true c); try (apply IH; auto); try exact Hdone.
+  - destruct (classify_fx true c); try exact Hdone; try (apply IH; auto; fail).
     + (* CDigit *) apply IH; auto. destruct (s_prec st); auto.
     + (* CStar *)
       destruct (va_scalar (s_args st)) as [v args'].
